@@ -718,7 +718,7 @@ impl Engine for C15 {
         }
         // sibling directories whose names are string prefixes of one another (a / ab, journal /
         // journal-2024): path arithmetic must work on segments, not on text
-        let prefixed: Vec<String> = ["a", "ab", "a/a", "a/ab", "ab/a", "ab/ab", "journal/x", "journal-2024/x", "journal/2024/x"].iter().map(|s| s.to_string()).collect();
+        let prefixed: Vec<String> = ["a", "ab", "a/a", "a/ab", "ab/a", "ab/ab", "journal/x", "journal-2024/x", "journal/2024/x", "v1.2", "a/v1.2", "v1.2/a", "2024.01.15"].iter().map(|s| s.to_string()).collect();
         let mut pdirs = vec![String::new(), "journal".to_string(), "journal-2024".to_string()];
         pdirs.extend(prefixed.iter().cloned());
         for k in &prefixed {
